@@ -150,3 +150,79 @@ Proof.
     + inversion E; subst. reflexivity.
   - inversion E; subst. reflexivity.
 Qed.
+
+(** Where a connection attempt comes from: only from a channel-create packet in
+    the tunnel-authorized phase, to the address that packet names, after the
+    installed host policy answered yes for it. *)
+Lemma dial_step c p ty body a p' evs fin h ok :
+  process_packet c p ty body a = (p', evs, fin) -> In (Dial h ok) evs ->
+  ty = PKT_TYPE_CHANNEL_CREATE /\ p = SERVER_STATE_TUNNEL_AUTHORIZE /\
+  h = join_host_port (fst (channel_request body)) (snd (channel_request body)) /\
+  (c_host_cb c = true -> a_host a = true) /\ ok = a_dial a.
+Proof.
+  intros H I. unfold process_packet in H.
+  destruct (ty =? PKT_TYPE_HANDSHAKE_REQUEST) eqn:T1.
+  { repeat match type of H with
+           | context [if ?c then _ else _] => destruct c
+           | context [match ?x with _ => _ end] => destruct x
+           end; inversion H; subst; cbn in I; intuition discriminate. }
+  destruct (ty =? PKT_TYPE_TUNNEL_CREATE) eqn:T2.
+  { destruct (negb (p =? SERVER_STATE_HANDSHAKE)); [inversion H; subst; cbn in I; intuition discriminate|].
+    destruct (tunnel_request body). destruct (c_cookie_cb c && negb (a_cookie a));
+      inversion H; subst; [cbn in I; intuition discriminate|].
+    apply in_app_or in I as [I|I]; [destruct (c_cookie_cb c); cbn in I; intuition discriminate|].
+    cbn in I; intuition discriminate. }
+  destruct (ty =? PKT_TYPE_TUNNEL_AUTH) eqn:T3.
+  { destruct (negb (p =? SERVER_STATE_TUNNEL_CREATE)); [inversion H; subst; cbn in I; intuition discriminate|].
+    destruct (c_name_cb c && negb (a_name a)); inversion H; subst; [cbn in I; intuition discriminate|].
+    apply in_app_or in I as [I|I]; [destruct (c_name_cb c); cbn in I; intuition discriminate|].
+    cbn in I; intuition discriminate. }
+  destruct (ty =? PKT_TYPE_CHANNEL_CREATE) eqn:T4.
+  { apply N.eqb_eq in T4. destruct (p =? SERVER_STATE_TUNNEL_AUTHORIZE) eqn:E; cbn [negb] in H;
+      [|inversion H; subst; cbn in I; intuition discriminate].
+    apply N.eqb_eq in E. destruct (channel_request body) as [server port] eqn:CR. cbn [fst snd].
+    destruct (c_host_cb c) eqn:CB; cbn [andb] in H.
+    - destruct (a_host a) eqn:AH; cbn [negb] in H; [|inversion H; subst; cbn in I; intuition discriminate].
+      destruct (a_dial a) eqn:AD; inversion H; subst; cbn in I;
+        repeat (destruct I as [I|I]; [try discriminate|]); try contradiction;
+        inversion I; subst; repeat split; auto.
+    - destruct (a_dial a) eqn:AD; inversion H; subst; cbn in I;
+        repeat (destruct I as [I|I]; [try discriminate|]); try contradiction;
+        inversion I; subst; repeat split; auto; discriminate. }
+  repeat match type of H with
+         | context [if ?c then _ else _] => destruct c
+         end; inversion H; subst; cbn in I; intuition discriminate.
+Qed.
+
+(** With the host-policy answers given by a function [pol] of the requested
+    address, every address the tunnel connects to satisfies [pol]. *)
+Lemma resolved_policy_dials pol live c items : forall st tr1 h ok tr2,
+  c_host_cb c = true ->
+  run_from c st (resolve_policy_dials pol live c st items) = tr1 ++ Dial h ok :: tr2 ->
+  pol h = true.
+Proof.
+  unfold resolve_policy_dials.
+  induction items as [|it items IH]; intros st tr1 h ok tr2 CB E.
+  - destruct tr1; discriminate.
+  - destruct it as [d a|]; cbn [resolve] in E.
+    2:{ cbn [run_from tstep] in E. destruct tr1 as [|? [|? ?]]; discriminate. }
+    set (a' := with_dial live st d (with_policy pol st d a)) in *.
+    destruct (tstep c st (RData d a')) as [[st' evs] fin] eqn:TS.
+    cbn [run_from] in E. rewrite TS in E.
+    assert (Hev : forall h ok, In (Dial h ok) evs -> pol h = true).
+    { intros h0 ok0 I. unfold tstep in TS.
+      destruct (fstep (fs st) d) as [f|ty size body| |] eqn:FS; try (inversion TS; subst; cbn in I; intuition discriminate).
+      destruct (process_packet c (ph st) ty body a') as [[p' evs'] fin'] eqn:PP.
+      inversion TS; subst.
+      destruct (dial_step _ _ _ _ _ _ _ _ _ _ PP I) as [Hty [_ [Hh [Hpol _]]]].
+      specialize (Hpol CB). unfold a', with_dial, with_policy in Hpol. cbn [a_host] in Hpol.
+      unfold requested_host in Hpol. rewrite FS in Hpol. subst ty.
+      change (PKT_TYPE_CHANNEL_CREATE =? PKT_TYPE_CHANNEL_CREATE) with true in Hpol.
+      destruct (channel_request body) as [server port]. cbn [fst snd] in Hh. subst h0. exact Hpol. }
+    assert (Hin : In (Dial h ok) (tr1 ++ Dial h ok :: tr2)) by (apply in_or_app; right; left; reflexivity).
+    rewrite <- E in Hin.
+    destruct fin.
+    + eapply Hev; eauto.
+    + apply in_app_or in Hin as [Hin|Hin]; [eapply Hev; eauto|].
+      apply in_split in Hin as [l1 [l2 Hl]]. eapply IH; eauto.
+Qed.
